@@ -29,7 +29,17 @@ def log_pdf_to_affiliation(
 
     # The value of affiliation max may exceed float64 range.
     # Scaling (add in log domain) does not change the final affiliation.
-    affiliation = log_pdf - np.amax(log_pdf, axis=-2, keepdims=True)
+    if source_activity_mask is None:
+        affiliation = log_pdf - np.amax(log_pdf, axis=-2, keepdims=True)
+    else:
+        # Inactive sources must not determine the scaling. Otherwise, an
+        # inactive source with a much higher likelihood lets all active
+        # sources underflow to zero.
+        affiliation = np.where(source_activity_mask, log_pdf, -np.inf)
+        maximum = np.amax(affiliation, axis=-2, keepdims=True)
+        affiliation = affiliation - np.where(
+            np.isfinite(maximum), maximum, 0
+        )
 
     np.exp(affiliation, out=affiliation)
 
